@@ -102,7 +102,9 @@ def array_set(rng, dim=None, nmax=200, narrays=None, allow_empty=True,
         dists = [d for d in DISTS
                  if (allow_empty or d != 'empty') and
                  (allow_degenerate or d not in ('single', 'coincident'))]
-        dist = str(rng.choice(dists))
+        # (axis-aligned flat sets are drawn three times as often: zero
+        # extent along an axis in use is where index arithmetic degenerates)
+        dist = str(rng.choice(dists + ['axis_flat', 'axis_flat']))
         n = int(rng.integers(2, nmax + 1))
         if dist == 'empty':
             n = 0
